@@ -99,6 +99,59 @@ def set_typed_names(prog):
     return out
 
 
+def _is_key_position(p_, x):
+    """x sits where only its equality with other keys matters: d[x], d.get / pop / setdefault(x, ..), x in d, {x: ..}"""
+    return (isinstance(p_, ast.Subscript) and p_.slice is x) \
+        or (isinstance(p_, ast.Call) and isinstance(p_.func, ast.Attribute) and p_.func.attr in ('get', 'pop', 'setdefault') and p_.args and p_.args[0] is x) \
+        or (isinstance(p_, ast.Compare) and p_.left is x and all(isinstance(o, (ast.In, ast.NotIn)) for o in p_.ops)) \
+        or (isinstance(p_, ast.Dict) and any(k is x for k in p_.keys))
+
+
+def _name_is_key_only(prog, oc, fn, name, depth=0):
+    """every read of the local / parameter `name` in fn (nested lambdas and functions included) is a lookup-key position, or hands the value on
+    as a positional argument of a method of the same class whose parameter is again key-only; the name is bound once"""
+    pm = {}
+    for p in ast.walk(fn):
+        for ch in ast.iter_child_nodes(p):
+            pm[id(ch)] = p
+    loads = [n for n in ast.walk(fn) if isinstance(n, ast.Name) and n.id == name and isinstance(n.ctx, ast.Load)]
+    stores = [n for n in ast.walk(fn) if isinstance(n, ast.Name) and n.id == name and isinstance(n.ctx, (ast.Store, ast.Del))]
+    is_param = any(a.arg == name for a in fn.args.posonlyargs + fn.args.args + fn.args.kwonlyargs)
+    if len(stores) != (0 if is_param else 1) or not loads:
+        return False
+    for n in loads:
+        p_ = pm.get(id(n))
+        if _is_key_position(p_, n):
+            continue
+        if isinstance(p_, ast.Call) and n in p_.args and depth < 2 and oc is not None and isinstance(p_.func, ast.Attribute) \
+                and unparse(p_.func.value) in ('self', oc.name, 'type(self)', 'cls') and not any(isinstance(a, ast.Starred) for a in p_.args):
+            r = prog.resolve(oc.name, p_.func.attr)
+            if r and r[1] is not None:
+                f2 = r[1]
+                static = any(unparse(d) == 'staticmethod' for d in f2.decorator_list)
+                params = [a.arg for a in f2.args.posonlyargs + f2.args.args][0 if static else 1:]
+                i = p_.args.index(n)
+                if i < len(params) and _name_is_key_only(prog, r[0], f2, params[i], depth + 1):
+                    continue
+        return False
+    return True
+
+
+def _id_bound_to_key_only_local(prog, oc, fn, call, pm):
+    """`k = id(x)` / `a, k = .., id(x)`: the id is bound to a local that is key-only (see above)"""
+    p_ = pm.get(id(call))
+    target = None
+    if isinstance(p_, ast.Assign) and p_.value is call and len(p_.targets) == 1 and isinstance(p_.targets[0], ast.Name):
+        target = p_.targets[0].id
+    elif isinstance(p_, ast.Tuple) and isinstance(pm.get(id(p_)), ast.Assign):
+        a_ = pm.get(id(p_))
+        if a_.value is p_ and len(a_.targets) == 1 and isinstance(a_.targets[0], ast.Tuple) and len(a_.targets[0].elts) == len(p_.elts):
+            t_ = a_.targets[0].elts[p_.elts.index(call)]
+            if isinstance(t_, ast.Name):
+                target = t_.id
+    return target is not None and _name_is_key_only(prog, oc, fn, target)
+
+
 def r71_sources(ctx):
     prog = ctx.prog
     ctx.rule('R7.1', 'no nondeterminism source in the package: hash()/id(), set iteration, global random functions, os.urandom/uuid/secrets, wall clock outside loop timeouts')
@@ -139,6 +192,8 @@ def r71_sources(ctx):
                                         or (isinstance(p_, ast.Compare) and p_.left is x and all(isinstance(o, (ast.In, ast.NotIn)) for o in p_.ops))
                                         or (isinstance(p_, ast.Dict) and any(k is x for k in p_.keys))):
                         harmless = 'a lookup key (identity index): only equality of ids matters'
+                    elif f == 'id' and _id_bound_to_key_only_local(prog, oc, fn, x, pm):
+                        harmless = 'bound to a local that is only ever a lookup key (identity index): only equality of ids matters'
                     elif isinstance(p_, ast.FormattedValue) or (isinstance(p_, ast.Call) and unparse(p_.func) in ('hex', 'str', 'repr') and isinstance(pm.get(id(p_)), ast.FormattedValue)):
                         harmless = 'part of a message text'
                     if harmless:
